@@ -10,9 +10,17 @@ in front of the empty glyph's own pen), segdraw / segrebuild (segment pen),
 copy (copyDataFromGlyph into a fresh glyph), insert (Layer.insertGlyph, same or other layer / font),
 decompose / decomposeAll (base glyphs are those of the glyph's own layer),
 pen (a raw point-pen call stream, optionally with skipConflictingIdentifiers).
-Every op's observable result is compared with the Lean model (M-Pen, `(model pen)`); the direct oracle
-evaluates the property's own predicates on the implementation's trace; independence of copies is checked
-on the implementation only, at the end of the case, by mutating each side.
+copyInto (copyDataFromGlyph into a glyph of the case that already holds data: what is replaced, what is kept),
+hcopy (a glyph given WITH the Python kinds of its values - a component transformation may be a list, the lib
+holds nested lists / dicts / tuples - copied by one route: copyDataFromGlyph into Glyph(), Layer.insertGlyph,
+Font.insertGlyph, or set(get())DataForSerialization; answered with the fields at which copy and source share
+a mutable object and with both glyphs as trees of values).
+Every op's observable result is compared with the Lean model (M-Pen and, for hcopy, M-Cells - the heap model
+in which independence is a theorem; `(model pen)`); the direct oracle evaluates the property's own predicates
+on the implementation's trace; after every copy path BOTH object graphs are walked and the `id()`s of the
+mutable objects they have in common must be none (and are compared with the model's prediction per field),
+then each side is mutated - in place wherever the API hands out a mutable object - and the other side's data
+must not move.
 """
 import json
 import os
@@ -36,12 +44,30 @@ RULE = ("quick 1200 / thorough 20000 cases; a case = 1-2 fonts of 1-7 glyphs (ba
         "the closing point; 12% of the cases contain deliberately malformed outlines or duplicate identifiers (in-memory only); "
         "identifiers from a shared pool of 10 on a random subset (so decomposition conflicts are frequent); 3-10 ops per case "
         "from draw/rebuild/drawContour/drawComponent/segdraw/segrebuild/copy/insert/decompose/decomposeAll/pen(raw stream, skip "
-        "flag)/dump; every copy/insert pair is mutated on both sides at the end of the case; non-trivial = some contour has >= 3 "
-        "points AND at least one successful rebuild/copy/insert/decompose/segrebuild; distinct = distinct canonical cases")
+        "flag)/dump, 9% copyInto (copyDataFromGlyph into any other glyph of the case that keeps the component graph acyclic: "
+        "destinations with contours / components / anchors / guidelines / lib / image / unicodes of their own, new / shallow / "
+        "full, in a font, a second layer, a font-less layer or stand-alone); every copy/insert/copyInto pair has both object "
+        "graphs walked for shared mutable objects and is mutated on both sides at the end of the case; plus 300 / 5000 cases of "
+        "1-3 hcopy ops: one glyph (gen_content + a lib of 0-3 keys with nested tagged values to depth 3: int/dyadic/str/bool/"
+        "None/tuple/list/dict; each component transformation a tuple or - 50% of the in-memory sources - the LIST a caller "
+        "handed in; source new stand-alone / in a Font / in a font-less Layer, or saved and reopened, shallow or fully loaded) "
+        "copied by copyDataFromGlyph into Glyph() (40%), Layer.insertGlyph (20%), Font.insertGlyph into another font (20%) or "
+        "setDataFromSerialization(getDataForSerialization()) (20%, model/implementation comparison only); non-trivial = some "
+        "contour has >= 3 points AND at least one successful rebuild/copy/insert/copyInto/hcopy/decompose/segrebuild; distinct = "
+        "distinct canonical cases")
 ASSUMPTIONS = [
-    "INDEPENDENCE (copy shares no mutable state) is checked on the implementation only (mutate every field of each side "
-    "incl. nested lib values, compare the other side's dump; identity walk over mutable containers): correspondence-only, "
-    "no Lean theorem",
+    "INDEPENDENCE (copy shares no mutable state) is a theorem about M-Cells (copy_independent: for the code's table of what "
+    "each copy statement does to each field, every cell of the copy is fresh); the table is tied to the code by the "
+    "regenerated Gen/CopyForms.lean (syntactic forms: deepcopy / list() / instantiate comprehension / own pen / assignment / "
+    "tuple() in the transformation setter) and by the runs (identity walk over both object graphs after every copy path: the "
+    "set of shared mutable objects, named by field, must equal the model's prediction - empty for the property's copy paths, "
+    "`lib.*` for the un-pickled serialization route). Field TYPES (width, names, identifiers, coordinates, colours hold "
+    "immutable values) are the domain: a caller who stores a list where a string or number belongs is outside it",
+    "a heap address is never reused (the harness keeps every object alive, so `id()`s are not reused either); cyclic "
+    "values are outside the model's fuel (plist data is a tree)",
+    "copyDataFromGlyph into a NON-fresh destination: width, height, unicodes, note, image, anchors, guidelines, lib are "
+    "replaced, the outline is appended (F120, recorded) and an identifier in common raises (F121, recorded); a rejected "
+    "copy leaves the destination partly overwritten - the harness then takes it out of its layer and does not touch it again",
     "component graphs are acyclic (cyclic references recurse until RecursionError: out of domain)",
     "coordinates and transformations are integers or dyadic rationals (k/8, k/4, k/2), where float arithmetic is exact; "
     "the model computes over Rat",
@@ -49,10 +75,12 @@ ASSUMPTIONS = [
     "and identifiers are not carried by the segment protocol",
     "a glyph that could not be assembled from (deliberately invalid) content is deleted again and 'poisoned' (no further "
     "direct ops); after other unexpected errors a glyph is poisoned too; the state after a REJECTED PEN CALL is modelled",
-    "copy/insert destinations are fresh glyphs (Glyph(), Layer.newGlyph), as Layer.insertGlyph uses copyDataFromGlyph",
-    "lib values are opaque to the model (canonical JSON dump); colours are given in normalised form",
-    "the check targets defcon with the fixes C13-decompose-shallow, C10-6 (shallow contours reserve their identifiers) and "
-    "C13-r2-1 (a shallow-loaded glyph falls back for pens without the identifier keyword like a loaded one)",
+    "copy/insert destinations are fresh glyphs (Glyph(), Layer.newGlyph), as Layer.insertGlyph uses copyDataFromGlyph; "
+    "copyInto destinations are any other glyph of the case",
+    "lib values are opaque to M-Pen (canonical JSON dump) and structured in M-Cells; colours are given in normalised form",
+    "the check targets defcon with the fixes C13-decompose-shallow, C10-6 (shallow contours reserve their identifiers), "
+    "C13-r2-1 (a shallow-loaded glyph falls back for pens without the identifier keyword like a loaded one) and C13-r3-1 "
+    "(Component._set_transformation stores a tuple: F119)",
     "a model 'layer' is one defcon Layer: f1 = default layer of font f1, f1:bg = its second layer, L1 = Layer() without font; "
     "the base glyph of a component is the glyph of that name in the layer of the glyph that holds the component",
     "pens that predate identifiers are modelled by their signatures only (a method either accepts the identifier keyword or "
@@ -60,7 +88,11 @@ ASSUMPTIONS = [
 ]
 TRUSTED = ["fontTools PointToSegmentPen/SegmentToPointPen/Transform ported by hand into the model (validated by the same runs)",
            "UFO write/read of the scratch fonts goes through defcon's own save + fontTools.ufoLib (valid outlines only)",
-           "the harness reads Glyph._shallowLoadedContours to establish which source state a glyph is in"]
+           "the harness reads Glyph._shallowLoadedContours to establish which source state a glyph is in",
+           "the object-graph walk reads private attributes (_unicodes, _lib, _image, _anchors, _guidelines, _contours, "
+           "_points, _components, _transformation, _identifiers, point slots) - the public getters copy or convert and would "
+           "hide both the identity and the kind (list / tuple) of what is stored",
+           "harness/extract_copyforms.py (AST shapes of the copy statements; fails closed on an unrecognised statement)"]
 
 BASES = ["A", "B", "C"]
 LEVEL1 = ["D", "E"]
@@ -430,9 +462,26 @@ def gen_case(rng, tier):
         for n, _, c in glyphs:
             comp_count[(lid, n)] = len(c["components"])
             cont_count[(lid, n)] = len(c["contours"])
+    # the rank of the deepest base glyph a glyph's components may name: a copy INTO an existing glyph must keep the
+    # component graph acyclic (a glyph named A..G may only receive components of glyphs ranked below it; glyphs with
+    # fresh names are nobody's base glyph)
+    content_rank = {}
+    for lid, _, glyphs in layer_specs(case0):
+        for n, _, c in glyphs:
+            content_rank[(lid, n)] = RANK[n]
     for _ in range(rng.randint(3, 10)):
         f, n = rng.choice(keys)
         r = rng.random()
+        if r < 0.09 and len(keys) > 1:
+            # copyDataFromGlyph into a glyph that already holds data (any glyph of the case but the source)
+            cands = [k for k in keys if k != (f, n) and (k[1] not in RANK or content_rank.get((f, n), 9) <= RANK[k[1]])]
+            if cands:
+                df, dn = rng.choice(cands)
+                ops.append(["copyInto", f, n, df, dn])
+                comp_count[(df, dn)] = comp_count.get((df, dn), 0) + comp_count.get((f, n), 0)
+                cont_count[(df, dn)] = cont_count.get((df, dn), 0) + cont_count.get((f, n), 0)
+                content_rank[(df, dn)] = max(content_rank.get((df, dn), 0), content_rank.get((f, n), 0))
+                continue
         if r < 0.08:
             ops.append(["draw", f, n, gen_caps(rng)])
         elif r < 0.20:
@@ -463,6 +512,7 @@ def gen_case(rng, tier):
             keys.append((df, dn))
             comp_count[(df, dn)] = comp_count.get((f, n), 0)
             cont_count[(df, dn)] = cont_count.get((f, n), 0)
+            content_rank[(df, dn)] = content_rank.get((f, n), 0)
         elif r < 0.72:
             fresh += 1
             df = rng.choice(fids)
@@ -476,6 +526,7 @@ def gen_case(rng, tier):
                 keys.append((df, dn))
             comp_count[(df, dn)] = comp_count.get((f, n), 0)
             cont_count[(df, dn)] = cont_count.get((f, n), 0)
+            content_rank[(df, dn)] = content_rank.get((f, n), 0)
         elif r < 0.84:
             withc = [k for k in keys if comp_count.get(k, 0) > 0 and k[0] != "-"]
             if withc and rng.random() < 0.97:
@@ -498,17 +549,81 @@ def gen_case(rng, tier):
             ops.append(["pen", f, n, rng.random() < 0.5, gen_events(rng, lower)])
             if any(e[0] == "comp" for e in ops[-1][4]):
                 comp_count[(f, n)] = comp_count.get((f, n), 0) + 1
+                content_rank[(f, n)] = max(content_rank.get((f, n), 0), 1)
         else:
             ops.append(["dump", f, n])
     return dict(fonts=fonts, ops=ops), stats
 
 
+# -- copies as object graphs (M-Cells): a glyph described WITH the Python kinds of its values ---------------
+
+HROUTES = ["copyData", "copyData", "insertLayer", "insertFont", "serial"]
+
+
+def gen_pyval(rng, depth, plist_only):
+    """a lib value, tagged: {"t": "int"|"num"|"str"|"bool"|"none"|"tuple"|"list"|"dict", "v": ...}"""
+    r = rng.random()
+    if depth <= 0 or r < 0.45:
+        k = rng.random()
+        if k < 0.35:
+            return dict(t="int", v=rng.randint(-5, 99))
+        if k < 0.5:
+            return dict(t="num", v=gen_num(rng, 0, 9, 1.0))
+        if k < 0.75:
+            return dict(t="str", v=rng.choice(["a", "b c", "", 'q"uote', "1,0,0,1"]))
+        if k < 0.85:
+            return dict(t="bool", v=rng.random() < 0.5)
+        if k < 0.93 and not plist_only:
+            return dict(t="tuple", v=[rng.randint(0, 9) for _ in range(rng.randint(0, 3))])
+        if not plist_only:
+            return dict(t="none")
+        return dict(t="int", v=0)
+    if r < 0.75:
+        return dict(t="list", v=[gen_pyval(rng, depth - 1, plist_only) for _ in range(rng.randint(0, 3))])
+    keys = rng.sample(["a", "b", "z", "w", "k.e.y"], rng.randint(0, 3))
+    return dict(t="dict", v=[[k, gen_pyval(rng, depth - 1, plist_only)] for k in keys])
+
+
+def gen_hspec(rng):
+    """a glyph for the object-graph copies: the content of gen_content plus the KIND of every component
+    transformation (tuple, or the list a caller may hand in) and a lib of nested tagged values"""
+    state = rng.choice(["new", "new", "new", "full", "shallow"])
+    names = ["A", "B", "D"]
+    content, _ = gen_content(rng, "D", names, rng.choice([0, 0.3, 0.6]))
+    content.pop("lib")
+    plist_only = state != "new"
+    nlib = rng.choice([0, 1, 2, 2, 3])
+    lib = [[k, gen_pyval(rng, 3, plist_only)] for k in rng.sample(["com.t.a", "com.t.b", "org.x.nested", "x"], nlib)]
+    tk = []
+    for _ in content["components"]:
+        tk.append("tuple" if (state != "new" or rng.random() < 0.5) else "list")
+    if not content["components"] and rng.random() < 0.6:
+        content["components"] = [["A", gen_transform(rng), None]]
+        tk = ["tuple" if state != "new" else rng.choice(["list", "tuple"])]
+    route = rng.choice(HROUTES)
+    if route == "serial" and state == "shallow":
+        state = "full"
+    home = "font" if state != "new" else rng.choice(["none", "font", "layer"])
+    return dict(content=content, lib=lib, tkinds=tk, state=state, home=home), route
+
+
+def gen_hcase(rng):
+    ops = []
+    for _ in range(rng.randint(1, 3)):
+        spec, route = gen_hspec(rng)
+        ops.append(["hcopy", route, spec])
+    return dict(fonts={}, ops=ops)
+
+
 def generate(rng, tier):
     n = 1200 if tier == "quick" else 20000
-    for _ in range(n):
+    nh = 300 if tier == "quick" else 5000
+    for i in range(n):
         case, stats = gen_case(rng, tier)
         case["gen_stats"] = stats
         yield case
+        if i % (n // nh) == 0:
+            yield gen_hcase(rng)
 
 
 def neighbourhood(case, step, rng):
@@ -648,11 +763,98 @@ def enc_op(op):
         return [Atom(k), op[1], op[2], op[3], op_caps(op)]
     if k == "decompose":
         return [Atom(k), op[1], op[2], op[3]]
-    if k in ("copy", "insert"):
+    if k in ("copy", "insert", "copyInto"):
         return [Atom(k), op[1], op[2], op[3], op[4]]
+    if k == "hcopy":
+        return [Atom("hcopy"), Atom(op[1]), hspec_tree(op[2])]
     if k == "pen":
         return [Atom("pen"), op[1], op[2], bool(op[3]), [enc_ev(e) for e in op[4]]]
     raise ValueError(op)
+
+
+# -- object graphs as S-expressions (M-Cells): none | true | false | 12 | 3/2 | "str" | (tuple a ...) |
+#    (list v ...) | (set v ...) | (dict ("k" v) ...) | (obj Cls ("k" v) ...)
+#    (in answers a dict is `(dict (set ("k" v) ...))`: the order of its keys is not compared - a plist sorts them)
+
+def pv_tree(v):
+    """a tagged lib value of a case -> S-expression"""
+    t = v["t"]
+    if t == "int":
+        return int(v["v"])
+    if t == "num":
+        return num_atom(v["v"])
+    if t in ("str", "bool"):
+        return v["v"]
+    if t == "none":
+        return None
+    if t == "tuple":
+        return [Atom("tuple")] + [int(x) for x in v["v"]]
+    if t == "list":
+        return [Atom("list")] + [pv_tree(x) for x in v["v"]]
+    if t == "dict":
+        return [Atom("dict")] + [[k, pv_tree(x)] for k, x in v["v"]]
+    raise ValueError(v)
+
+
+def pv_py(v):
+    """a tagged lib value of a case -> the Python value"""
+    t = v["t"]
+    if t == "num":
+        return to_py(v["v"])
+    if t in ("int", "str", "bool"):
+        return v["v"]
+    if t == "none":
+        return None
+    if t == "tuple":
+        return tuple(v["v"])
+    if t == "list":
+        return [pv_py(x) for x in v["v"]]
+    if t == "dict":
+        return {k: pv_py(x) for k, x in v["v"]}
+    raise ValueError(v)
+
+
+def optn(v):
+    return None if v is None else num_atom(v)
+
+
+def obj(cls, *pairs):
+    return [Atom("obj"), Atom(cls)] + [[k, v] for k, v in pairs]
+
+
+IMAGE_KEYS = ["xScale", "xyScale", "yxScale", "yScale", "xOffset", "yOffset"]
+
+
+def hspec_tree(spec):
+    """the source glyph of an hcopy op as the CASE describes it (a component transformation may be a list)"""
+    c = spec["content"]
+    img = c["image"]
+    t = img["t"] if img else DEFAULT_T
+    ids = [a["id"] for a in c["anchors"]] + [a["id"] for a in c["guidelines"]] + [k[2] for k in c["components"]]
+    for ct in c["contours"]:
+        ids.append(ct["id"])
+        ids += [p[5] for p in ct["points"]]
+    return obj("Glyph",
+               ("width", num_atom(c["width"])), ("height", num_atom(c["height"])), ("note", c["note"]),
+               ("unicodes", [Atom("list")] + [int(u) for u in c["unicodes"]]),
+               ("lib", [Atom("dict")] + [[k, pv_tree(v)] for k, v in spec["lib"]]),
+               ("image", obj("Image", ("fileName", img["fileName"] if img else None),
+                             *([(k, num_atom(v)) for k, v in zip(IMAGE_KEYS, t)] + [("color", img["color"] if img else None)]))),
+               ("anchors", [Atom("list")] + [obj("Anchor", ("x", optn(a["x"])), ("y", optn(a["y"])), ("name", a["name"]),
+                                                ("color", a["color"]), ("identifier", a["id"])) for a in c["anchors"]]),
+               ("guidelines", [Atom("list")] + [obj("Guideline", ("x", optn(a["x"])), ("y", optn(a["y"])),
+                                                   ("angle", optn(a["angle"])), ("name", a["name"]), ("color", a["color"]),
+                                                   ("identifier", a["id"])) for a in c["guidelines"]]),
+               ("contours", [Atom("list")] + [
+                   obj("Contour", ("identifier", ct["id"]),
+                       ("points", [Atom("list")] + [obj("Point", ("x", num_atom(q[0])), ("y", num_atom(q[1])),
+                                                        ("segmentType", q[2]), ("smooth", bool(q[3])), ("name", q[4]),
+                                                        ("identifier", q[5])) for q in ct["points"]]))
+                   for ct in c["contours"]]),
+               ("components", [Atom("list")] + [
+                   obj("Component", ("baseGlyph", k[0]), ("transformation", [Atom(kind)] + [num_atom(v) for v in k[1]]),
+                       ("identifier", k[2])) for k, kind in zip(c["components"], spec["tkinds"])]),
+               ("identifiers", [Atom("set")] + sorted(i for i in ids if i is not None)))
 
 
 def setup_ops(case):
@@ -925,6 +1127,7 @@ class World(object):
     def __init__(self, case, tmp):
         from defcon import Font
         self.case = case
+        self.tmp = tmp
         self.fonts = {}
         self.layers = {}          # layer id -> the object glyphs are reached through (Font or Layer)
         self.where = {"-": ""}    # layer id -> suffix of the oracle's call site
@@ -990,6 +1193,10 @@ class World(object):
             self.glyphs[(f, n)] = g
             self.poisoned.discard((f, n))
             return [Atom("ok"), dump(g)], None
+        if k == "hcopy":
+            return self.hcopy(op)
+        if k == "copyInto":
+            return self.copy_into(op)
         key = (op[1], op[2])
         if key in self.poisoned:
             self.count("poisoned-skip")
@@ -1023,6 +1230,123 @@ class World(object):
         if is_shallow(g):
             return "shallow"
         return "deep"
+
+    # -- copyDataFromGlyph into a glyph that already holds data ------------------------------------
+    def copy_into(self, op):
+        _, sf, sn, df, dn = op
+        skey, dkey = (sf, sn), (df, dn)
+        if skey in self.poisoned or dkey in self.poisoned:
+            self.count("poisoned-skip")
+            return [Atom("poisoned")], None
+        g, d = self.glyphs.get(skey), self.glyphs.get(dkey)
+        if g is None or d is None:
+            return [Atom("err"), Atom("KeyError")], None
+        ctx = dict(op=op, key=skey, variant=self.state_of(g), tainted=skey in self.tainted or dkey in self.tainted,
+                   where=self.where.get(df, ""))
+        ctx["src_dump"] = dump(g)
+        ctx["dst_before"] = dump(d)
+        ctx["dst_state"] = self.state_of(d)
+        ctx["dst_ids"] = sorted(d.identifiers)
+        ctx["src_ids"] = sorted(set(used_identifiers(g, stream(g))))
+        ctx["src_ids_all"] = used_identifiers(g, stream(g))
+        try:
+            d.copyDataFromGlyph(g)
+        except Exception as e:
+            # the destination is left partly overwritten (and identifiers of objects made for it stay registered,
+            # C10's F29): not modelled, poisoned; the source must be as it was
+            self.poisoned.add(dkey)
+            self.glyphs.pop(dkey, None)
+            if df != "-" and dn in self.layers[df]:
+                del self.layers[df][dn]         # no component may resolve to the half-overwritten glyph
+            ctx["error"] = type(e).__name__
+            ctx["src_after"] = dump(g)
+            self.count("err." + type(e).__name__)
+            return err_of(e), ctx
+        self.count("ok.copyInto")
+        self.pairs.append((skey, dkey, d, g))
+        ctx["result"] = d
+        ctx["src_after"] = dump(g)
+        return [Atom("ok"), dump(d)], ctx
+
+    # -- copies as object graphs ---------------------------------------------------------------------
+    def hcopy(self, op):
+        from defcon import Font, Glyph, Layer
+        _, route, spec = op
+        ctx = dict(op=["hcopy", route, spec["state"], spec["home"]], key=None, variant=spec["state"], where="." + route,
+                   hcopy=True, route=route)
+        try:
+            c = spec["content"]
+
+            def fill(g):
+                fill_glyph(g, dict(c, lib={}, components=[]))
+                pen = g.getPointPen()
+                for (base, t, ident), kind in zip(c["components"], spec["tkinds"]):
+                    tv = [to_py(v) for v in t]
+                    pen.addComponent(base, tuple(tv) if kind == "tuple" else list(tv), identifier=ident)
+                for k, v in spec["lib"]:
+                    g.lib[k] = pv_py(v)
+            font = None
+            if spec["state"] == "new":
+                if spec["home"] == "none":
+                    src = Glyph()
+                elif spec["home"] == "layer":
+                    font = Layer()
+                    src = font.newGlyph("D")
+                else:
+                    font = Font()
+                    src = font.newGlyph("D")
+                self.keep += [font, src]
+                fill(src)
+            else:
+                f0 = Font()
+                g0 = f0.newGlyph("D")
+                self.keep += [f0, g0]
+                fill(g0)
+                self._hn = getattr(self, "_hn", 0) + 1
+                path = os.path.join(self.tmp, "h%d.ufo" % self._hn)
+                f0.save(path)
+                font = Font(path)
+                src = font["D"]
+                self.keep += [font, src]
+                if spec["state"] == "full":
+                    len(src)
+                elif c["contours"] and not is_shallow(src):
+                    raise RuntimeError("harness: hcopy source is not shallow loaded")
+            if route == "copyData":
+                d = Glyph()
+                self.keep.append(d)
+                d.copyDataFromGlyph(src)
+            elif route == "insertLayer":
+                layer = Layer() if font is None else (font.layers.defaultLayer if hasattr(font, "layers") else font)
+                self.keep.append(layer)
+                d = layer.insertGlyph(src, name="cp")
+            elif route == "insertFont":
+                other = Font()
+                self.keep.append(other)
+                d = other.insertGlyph(src, name="D")
+            elif route == "serial":
+                d = Glyph()
+                self.keep.append(d)
+                d.setDataFromSerialization(src.getDataForSerialization())
+            else:
+                raise ValueError(route)
+            self.keep.append(d)
+            shared = shared_paths(src, d)
+            ctx["shared"] = shared
+            dt, st = glyph_tree(d), glyph_tree(src)
+            ctx["trees"] = (dt, st)
+            ctx["pair"] = (src, d)
+            self.count("ok.hcopy." + route)
+            self.count("hcopy.src." + spec["state"])
+            if "list" in spec["tkinds"]:
+                self.count("hcopy.component-transformation-given-as-list")
+            return [Atom("ok"), [Atom("set")] + shared, dt, st], ctx
+        except RuntimeError:
+            raise
+        except Exception as e:
+            ctx["error"] = type(e).__name__
+            self.count("err." + type(e).__name__)
+            return err_of(e), ctx
 
     def mk(self, op):
         _, f, n, variant, c = op
@@ -1205,8 +1529,11 @@ def _run_impl(case, tmp):
     for k, v in case.get("gen_stats", {}).items():
         stats[k] = stats.get(k, 0) + v
     stats["cases"] = 1
-    big = any(len(ct["points"]) >= 3 for _, _, glyphs in layer_specs(case) for g in glyphs for ct in g[2]["contours"])
-    good = sum(w.stats.get("ok." + k, 0) for k in ("rebuild", "copy", "insert", "decompose", "decomposeAll", "segrebuild"))
+    big = any(len(ct["points"]) >= 3 for _, _, glyphs in layer_specs(case) for g in glyphs for ct in g[2]["contours"]) or \
+        any(len(ct["points"]) >= 3 for op in case["ops"] if op[0] == "hcopy" for ct in op[2]["content"]["contours"])
+    good = sum(w.stats.get("ok." + k, 0) for k in ("rebuild", "copy", "insert", "decompose", "decomposeAll", "segrebuild",
+                                                     "copyInto")) + \
+        sum(v for k, v in w.stats.items() if k.startswith("ok.hcopy."))
     return dict(out=outs, viol=viol[:5], info=dict(nontrivial=bool(big and good), stats=stats))
 
 
@@ -1436,6 +1763,16 @@ def oracle_step(w, ctx, step):
         for v in viol:
             v["step"] = step
         return viol
+    if ctx.get("hcopy"):
+        viol = oracle_hcopy(w, ctx, err)
+        for v in viol:
+            v["step"] = step
+        return viol
+    if k == "copyInto":
+        viol = oracle_copy_into(w, ctx, err)
+        for v in viol:
+            v["step"] = step
+        return viol
     if k == "draw":
         # a pen that predates identifiers (in some or all of its methods) is told the same calls as a pen of
         # today's protocol, identifiers excepted: coordinates, types, smooth flags, names, bases, transformations
@@ -1618,6 +1955,112 @@ def oracle_step(w, ctx, step):
     return viol
 
 
+KNOWN_KEEPS_OUTLINE = "C13/copy-into-keeps-outline/copyInto"
+KNOWN_SHARED_IDENTIFIER = "C13/copy-into-shared-identifier/copyInto"
+
+
+def oracle_copy_into(w, ctx, err):
+    """`copyDataFromGlyph` into a glyph that already holds data.  The property: the destination then equals the
+    source (name aside), the source is unchanged.  Two recorded deviations have signatures of their own (F120: the
+    destination's own contours / components stay in front of the copied ones; F121: AssertionError when source and
+    destination have an identifier in common) - whatever else differs is a violation."""
+    viol = []
+    if sexp_canon(ctx["src_after"]) != sexp_canon(ctx["src_dump"]):
+        viol.append(V("copy-changes-source", ctx))
+    if ctx.get("tainted"):
+        return viol
+    common = set(ctx["dst_ids"]) & set(ctx["src_ids"])
+    src_valid = len(ctx["src_ids_all"]) == len(set(ctx["src_ids_all"]))
+    if err:
+        if err == "AssertionError" and common:
+            v = V("copy-into-shared-identifier", ctx, common=sorted(common))
+            v["signature"] = KNOWN_SHARED_IDENTIFIER
+            viol.append(v)
+        elif src_valid:
+            viol.append(V("copy-raises", ctx, error=err))
+        return viol
+    d = ctx["result"]
+    src, before, after = ctx["src_dump"], ctx["dst_before"], dump(d)
+    names = {2: "width", 3: "height", 4: "unicodes", 5: "note", 6: "image", 7: "anchors", 8: "guidelines", 9: "lib"}
+    diff = [names[i] for i in sorted(names) if sexp_canon(after[i]) != sexp_canon(src[i])]
+    if diff:
+        viol.append(V("copy-equal", ctx, fields=diff, expected=[src[i] for i in sorted(names)],
+                      observed=[after[i] for i in sorted(names)]))
+    if sexp_canon(after[1]) != sexp_canon(before[1]):
+        viol.append(V("copy-name", ctx, expected=before[1], observed=after[1]))
+    if sexp_canon(after[11]) != sexp_canon(src[11]):
+        # the outline is not the source's: the recorded deviation is exactly "old contours, then the source's
+        # contours, then old components, then the source's components"
+        sa = split_stream(_evs_of_dump(before[11]))
+        sb = split_stream(_evs_of_dump(src[11]))
+        kept = None
+        if sa is not None and sb is not None:
+            kept = []
+            for ident, pts in sa[0] + sb[0]:
+                kept += [("bp", ident)] + pts + [("ep",)]
+            kept += sa[1] + sb[1]
+        if kept is not None and (sa[0] or sa[1]) and _evs_of_dump(after[11]) == kept:
+            v = V("copy-into-keeps-outline", ctx, kept_contours=len(sa[0]), kept_components=len(sa[1]))
+            v["signature"] = KNOWN_KEEPS_OUTLINE
+            viol.append(v)
+        else:
+            viol.append(V("copy-equal", ctx, fields=["outline"], expected=src[11], observed=after[11]))
+    return viol
+
+
+def _evs_of_dump(evs):
+    """the stream of a dump (canonical atoms) as comparable tuples"""
+    out = []
+    for e in evs:
+        k = str(e[0])
+        if k == "bp":
+            out.append(("bp", sexp_canon(e[1])))
+        elif k == "pt":
+            out.append(("pt",) + tuple(sexp_canon(x) for x in e[1:]))
+        elif k == "ep":
+            out.append(("ep",))
+        else:
+            out.append(("comp",) + tuple(sexp_canon(x) for x in e[1:]))
+    return out
+
+
+def oracle_hcopy(w, ctx, err):
+    """a copy as an object graph: equal to the source (as a tree of values with their kinds) and no mutable object
+    in common, then mutation probes on both sides.  The serialization route is not a copy path of the property: it
+    is compared with the model only."""
+    if ctx["route"] == "serial":
+        return []
+    viol = []
+    if err:
+        viol.append(V("copy-raises", ctx, error=err))
+        return viol
+    if ctx["shared"]:
+        viol.append(V("independence-shared-object", ctx, fields=ctx["shared"]))
+    dt, st = ctx["trees"]
+    if sexp_canon(dt) != sexp_canon(st):
+        viol.append(V("copy-equal", ctx, expected=st, observed=dt))
+    src, d = ctx["pair"]
+    try:
+        d0 = sexp_canon(glyph_tree(d))
+        try:
+            mutate_all(src)
+        except AssertionError:
+            w.count("independence.mutation-rejected")
+        if sexp_canon(glyph_tree(d)) != d0:
+            viol.append(V("independence-source-mutation-reaches-copy", ctx))
+        s1 = sexp_canon(glyph_tree(src))
+        try:
+            mutate_all(d)
+        except AssertionError:
+            w.count("independence.mutation-rejected")
+        if sexp_canon(glyph_tree(src)) != s1:
+            viol.append(V("independence-copy-mutation-reaches-source", ctx))
+        w.count("independence.checked")
+    except Exception as e:
+        viol.append(V("independence-check-raises", ctx, error="%s: %s" % (type(e).__name__, e)))
+    return viol
+
+
 def _layer_of(container):
     """the Layer object behind a Font (its default layer) or a Layer"""
     layers = getattr(container, "layers", None)
@@ -1703,6 +2146,9 @@ def mutate_all(g):
         c.addPoint((777, 777), "line")
         c.dirty = True
     for k in g.components:
+        t = k.transformation
+        if isinstance(t, list):
+            t[4] = t[4] + 5              # the getter handed out the object the component holds
         k.move((3, 4))
         k.baseGlyph = "mutbase"
     pen = g.getPointPen()
@@ -1713,6 +2159,155 @@ def mutate_all(g):
     if len(g) > 1:
         g.removeContour(g[0])
     g.appendAnchor(dict(x=1, y=1, name="mutanchor"))
+
+
+# -- object graphs: what a glyph IS (tree of values with their Python kinds) and which mutable objects it holds --
+
+MUTABLE = (list, dict, set, bytearray)
+
+
+def val_tree(x):
+    """a Python value -> S-expression with its kinds (Color is a str; defcon dict objects are walked by their own rules)"""
+    if x is None:
+        return None
+    if isinstance(x, bool):
+        return x
+    if isinstance(x, (int, float)):
+        return num_atom(x)
+    if isinstance(x, str):
+        return str(x)
+    if isinstance(x, tuple):
+        return [Atom("tuple")] + [val_tree(v) for v in x]
+    if isinstance(x, list):
+        return [Atom("list")] + [val_tree(v) for v in x]
+    if isinstance(x, (set, frozenset)):
+        return [Atom("set")] + sorted((val_tree(v) for v in x), key=repr)
+    if isinstance(x, dict):
+        return [Atom("dict"), [Atom("set")] + [[str(k), val_tree(v)] for k, v in x.items()]]
+    raise TypeError("harness: value of unexpected type in a glyph: %r" % (x,))
+
+
+def glyph_tree(g):
+    """the glyph as a tree of values; private attributes where the public getter would hide the kind (copy, tuple())"""
+    img = g.image
+    t = img.transformation
+    return obj("Glyph",
+               ("width", val_tree(g.width)), ("height", val_tree(g.height)), ("note", val_tree(g.note)),
+               ("unicodes", val_tree(g._unicodes)),
+               ("lib", val_tree(dict(g.lib))),
+               ("image", obj("Image", ("fileName", val_tree(img.fileName)),
+                             *([(k, val_tree(v)) for k, v in zip(IMAGE_KEYS, t)] + [("color", val_tree(img.color))]))),
+               ("anchors", [Atom("list")] + [obj("Anchor", ("x", val_tree(a.x)), ("y", val_tree(a.y)), ("name", val_tree(a.name)),
+                                                ("color", val_tree(a.color)), ("identifier", val_tree(a.identifier)))
+                                            for a in g._anchors]),
+               ("guidelines", [Atom("list")] + [obj("Guideline", ("x", val_tree(a.x)), ("y", val_tree(a.y)),
+                                                   ("angle", val_tree(a.angle)), ("name", val_tree(a.name)),
+                                                   ("color", val_tree(a.color)), ("identifier", val_tree(a.identifier)))
+                                               for a in g._guidelines]),
+               ("contours", [Atom("list")] + [
+                   obj("Contour", ("identifier", val_tree(ct.identifier)),
+                       ("points", [Atom("list")] + [obj("Point", ("x", val_tree(q.x)), ("y", val_tree(q.y)),
+                                                        ("segmentType", val_tree(q.segmentType)), ("smooth", bool(q.smooth)),
+                                                        ("name", val_tree(q.name)), ("identifier", val_tree(q.identifier)))
+                                                    for q in ct._points]))
+                   for ct in g]),
+               ("components", [Atom("list")] + [
+                   obj("Component", ("baseGlyph", val_tree(k.baseGlyph)), ("transformation", val_tree(k._transformation)),
+                       ("identifier", val_tree(k.identifier))) for k in g._components]),
+               ("identifiers", val_tree(g._identifiers)))
+
+
+def all_mutable_ids(g):
+    """id() of EVERY mutable object in the data of a glyph: the glyph, its containers, the objects in them, every
+    list / dict / set at any depth of any attribute value (also inside tuples), the shallow-loaded contour records"""
+    acc = {}
+
+    def value(v):
+        if isinstance(v, MUTABLE):
+            if id(v) in acc:
+                return
+            acc[id(v)] = v
+            for x in (list(v.values()) if isinstance(v, dict) else list(v)):
+                value(x)
+        elif isinstance(v, tuple):
+            for x in v:
+                value(x)
+
+    def thing(o, attrs):
+        acc[id(o)] = o
+        for a in attrs:
+            value(getattr(o, a, None))
+    thing(g, ["_unicodes", "_width", "_height", "_note", "_identifiers", "_anchors", "_guidelines", "_contours", "_components",
+              "_shallowLoadedContours"])
+    for o in (g._lib, g._image):
+        if o is not None:
+            value(o)                       # Lib / Image are dicts: the object and everything in it
+    for a in list(g._anchors) + list(g._guidelines):
+        value(a)
+    for ct in (g._contours or []):
+        thing(ct, ["_points", "_identifier"])
+        for q in ct._points:
+            thing(q, ["_x", "_y", "_segmentType", "_smooth", "_name", "_identifier"])
+    for k in g._components:
+        thing(k, ["_baseGlyph", "_transformation", "_identifier"])
+    return acc
+
+
+def shared_paths(src, dst):
+    """the fields of `dst` (named as the model's tables name them; items of lists / dicts / sets are `*`) that are
+    mutable objects of `src`: walk `dst` from the glyph down, report the topmost shared object of every branch"""
+    ids = all_mutable_ids(src)
+    out = set()
+
+    def value(v, path):
+        if isinstance(v, MUTABLE):
+            if id(v) in ids:
+                out.add(path)
+                return
+            for x in (list(v.values()) if isinstance(v, dict) else list(v)):
+                value(x, path + ".*" if path else "*")
+        elif isinstance(v, tuple):
+            for x in v:
+                value(x, path)
+
+    def thing(o, path, fields):
+        """a defcon object with named attributes; False = it is shared (reported)"""
+        if id(o) in ids:
+            out.add(path)
+            return False
+        for name, v in fields:
+            value(v, (path + "." if path else "") + name)
+        return True
+
+    def items(lst, path, each):
+        if lst is None:
+            return
+        if id(lst) in ids:
+            out.add(path)
+            return
+        for o in lst:
+            each(o, path + ".*")
+    if not thing(dst, "", [("width", dst._width), ("height", dst._height), ("note", dst._note), ("unicodes", dst._unicodes),
+                           ("identifiers", dst._identifiers), ("contours", dst._shallowLoadedContours)]):
+        return sorted(out)
+    if dst._lib is not None:
+        value(dst._lib, "lib")
+    if dst._image is not None:
+        if id(dst._image) in ids:
+            out.add("image")
+        else:
+            for k, v in dst._image.items():
+                value(v, "image." + k)
+    for name, lst in (("anchors", dst._anchors), ("guidelines", dst._guidelines)):
+        items(lst, name, lambda o, p: thing(o, p, [(k, v) for k, v in o.items()]))
+    items(dst._contours, "contours", lambda ct, p: thing(ct, p, [("identifier", ct._identifier)]) and
+          items(ct._points, p + ".points", lambda q, pp: thing(q, pp, [("x", q._x), ("y", q._y), ("name", q._name),
+                                                                        ("segmentType", q._segmentType),
+                                                                        ("identifier", q._identifier)])))
+    items(dst._components, "components", lambda k, p: thing(k, p, [("baseGlyph", k._baseGlyph),
+                                                                   ("transformation", k._transformation),
+                                                                   ("identifier", k._identifier)]))
+    return sorted(out)
 
 
 def mutable_nodes(v, acc):
@@ -1737,14 +2332,10 @@ def oracle_independence(w):
         done.add(id(s))
         ctx = dict(op=["independence", skey[0], skey[1], dkey[0], dkey[1]], variant=w.state_of(s))
         try:
-            shared = set()
-            for sv in s.lib.values():
-                for dv in d.lib.values():
-                    shared |= mutable_nodes(sv, set()) & mutable_nodes(dv, set())
-            objs = set(map(id, list(s.anchors) + list(s.guidelines) + list(s.components) + [s.image, s.lib])) & \
-                set(map(id, list(d.anchors) + list(d.guidelines) + list(d.components) + [d.image, d.lib]))
-            if shared or objs:
-                viol.append(V("independence-shared-object", ctx, shared=len(shared) + len(objs)))
+            shared = shared_paths(s, d)
+            if shared:
+                viol.append(V("independence-shared-object", ctx, fields=shared))
+            w.count("independence.graphs-walked")
             try:
                 d0 = full_dump(d)
                 s0 = full_dump(s)
@@ -1770,3 +2361,63 @@ def oracle_independence(w):
         except Exception as e:
             viol.append(V("independence-check-raises", ctx, error="%s: %s" % (type(e).__name__, e)))
     return viol
+
+
+# ---------------------------------------------------------------------------------------
+# tie to the source, known findings, directed search
+# ---------------------------------------------------------------------------------------
+
+def extract(repo, lean_dir):
+    """regenerate lean/DefconModel/Gen/CopyForms.lean (the syntactic form of every statement of the copy paths)"""
+    import extract_copyforms
+    return extract_copyforms.extract(repo, lean_dir)
+
+
+def _simple_content(**kw):
+    c = dict(width=500, height=0, unicodes=[65], note=None, image=None, anchors=[], guidelines=[], lib={},
+             contours=[], components=[])
+    c.update(kw)
+    return c
+
+
+_SQUARE = dict(id=None, points=[[0, 0, "line", False, None, None], [10, 0, "line", False, None, None],
+                                [10, 10, "line", False, None, None]])
+
+WITNESSES = {
+    # F120: the destination's own contour stays in front of the copied one
+    KNOWN_KEEPS_OUTLINE: dict(
+        fonts={"f1": dict(kind="new", glyphs=[
+            ["A", "new", _simple_content(contours=[_SQUARE])],
+            ["B", "new", _simple_content(width=300, unicodes=[66], lib={"com.test.int": 1},
+                                         contours=[dict(id=None, points=[[5, 5, "move", False, None, None],
+                                                                         [7, 9, "line", False, None, None]])])]])},
+        ops=[["copyInto", "f1", "A", "f1", "B"]]),
+    # F121: source and destination both carry the anchor identifier "i1" (the second copy of the same source)
+    KNOWN_SHARED_IDENTIFIER: dict(
+        fonts={"f1": dict(kind="new", glyphs=[
+            ["A", "new", _simple_content(anchors=[dict(x=1, y=2, name="top", color=None, id="i1")])],
+            ["B", "new", _simple_content(width=300)]])},
+        ops=[["copyInto", "f1", "A", "f1", "B"], ["copyInto", "f1", "A", "f1", "B"]]),
+}
+
+
+def replay_known(entry):
+    case = WITNESSES.get(entry.get("signature"))
+    if case is None:
+        return False
+    r = run_impl(case)
+    return any(v.get("signature") == entry["signature"] for v in r["viol"])
+
+
+def search(rng, tier, broken):
+    """directed search after a broken obligation (the table of copy forms no longer matches): glyphs as object
+    graphs with list-valued component transformations and nested libs through every copy route, and copies into
+    glyphs that hold data"""
+    n = 400 if tier == "quick" else 4000
+    for i in range(n):
+        if i % 4 == 3:
+            case, _ = gen_case(rng, tier)
+            if any(o[0] in ("copy", "insert", "copyInto") for o in case["ops"]):
+                yield case
+            continue
+        yield gen_hcase(rng)
